@@ -5,8 +5,12 @@
 (* on_catch_all defined on the class) by 100 + key.                              *)
 (* ORIGINAL = TRUE models get_handlers as first found: the list stored in the    *)
 (* registry is extended in place with the method handler on every dispatch.      *)
+(* Handlers may misbehave (raise, or return a response the client cannot send):  *)
+(* Faulty is the set of such handler ids; the loop logs the failure and goes on. *)
+(* ABORT = TRUE models a loop in which the failure escapes, so the remaining     *)
+(* handlers of the task are never called (rejected by ExactlyOnce).              *)
 EXTENDS Naturals, Sequences, FiniteSets, TLC
-CONSTANTS Cmds, Hids, MaxReg, MethodSets, ORIGINAL
+CONSTANTS Cmds, Hids, MaxReg, MethodSets, ORIGINAL, Faulty, ABORT
 NONE == 0                     \* empty task
 ALL  == 999                   \* catch-all
 Keys == Cmds \cup {NONE, ALL}
@@ -33,7 +37,9 @@ Dispatch(k) ==
            \* (an empty registry entry is a fresh list in the original code as well: .get(command_id, []))
            fall  == WithMethod(ALL, regA[ALL])
            regB  == IF ORIGINAL /\ own = <<>> /\ ALL \in methods /\ regA[ALL] # <<>> THEN [regA EXCEPT ![ALL] = fall] ELSE regA
-           calls == IF own # <<>> THEN own ELSE fall
+           all_  == IF own # <<>> THEN own ELSE fall
+           bad   == { i \in 1..Len(all_) : all_[i] \in Faulty }
+           calls == IF ABORT /\ bad # {} THEN SubSeq(all_, 1, CHOOSE i \in bad : \A j \in bad : i <= j) ELSE all_
        IN /\ reg' = regB
           /\ last' = [op |-> "dispatch", key |-> k, calls |-> calls, expected |-> Expected(reg, k)]
     /\ UNCHANGED <<methods, nreg>>
